@@ -26,7 +26,15 @@ CONSTANTS H,        \* number of concurrent handlers
           Ids,      \* wire values of the server-shard-id header that are tried (a set of integers; see IdsAll/IdsClasses)
           ServeFails,      \* BOOLEAN: handleStream may also fail by a panic (captured by log.CapturePanic) - any fault of one stream
           DeferUnreport,   \* the code: TRUE. the -1 is a deferred call, so it also runs when handleStream panics
-          LockedAdd        \* the code: TRUE. the counter add happens under streamGrowLock also when no growth is needed
+          LockedAdd,       \* the code: TRUE. the counter add happens under streamGrowLock also when no growth is needed
+          Counting,        \* the code: TRUE. the counters count (+1 / -1): several streams may be open on one server shard id at once
+                           \* (clusters with different shard counts, a reconnect before the old stream is torn down).  FALSE: a
+                           \* variant that stores a flag (1 when opened, 0 when closed)
+          TrackKey         \* what the stream tracker (debug bookkeeping, proxy/stream_tracker.go: BuildForwarderStreamID) keys a
+                           \* forwarder stream by.  "pair": server and client shard id (handlers stand for distinct client shards) -
+                           \* the repaired code; "server": the server shard id alone - the code as pinned (finding C20-tracker:
+                           \* two streams on one server shard share an entry, the first to end removes it); "mod": a variant
+                           \* keyed by the server shard id modulo 4 (e.g. the id after the LCM remapping)
 
 W == 2 * B
 MaxInt == 2 ^ (W - 1) - 1
@@ -56,22 +64,26 @@ VARIABLES lock,      \* 0 = free, h = held by handler h
           len,       \* len(streamActive)
           cnt,       \* counters; indexes >= len do not exist
           pc, id, outcome,
-          snap       \* [Hs -> counters copied by slices.Grow, or NoSnap]: allocation+copy and publication are two steps
-vars == <<lock, len, cnt, pc, id, outcome, snap>>
+          snap,      \* [Hs -> counters copied by slices.Grow, or NoSnap]: allocation+copy and publication are two steps
+          trk        \* keys present in the stream tracker (RegisterStream / UnregisterStream of StreamForwarder.Run)
+vars == <<lock, len, cnt, pc, id, outcome, snap, trk>>
 NoSnap == [i \in {-1} |-> 0]
 Hs == 1..H
 Idx(h) == Wrap(id[h])     \* history.DecodeClusterShardMD: int32(metadataValue)
+Key(h) == CASE TrackKey = "pair" -> <<Idx(h), h>> [] TrackKey = "server" -> <<Idx(h), 0>> [] OTHER -> <<Idx(h) % 4, h>>
+Up(c) == IF Counting THEN c + 1 ELSE 1
+Down(c) == IF Counting THEN c - 1 ELSE 0
 
 Init == /\ lock = 0 /\ len = InitLen /\ cnt = [i \in 0..MaxInt |-> 0]
         /\ pc = [h \in Hs |-> "start"] /\ id \in [Hs -> Ids] /\ outcome = [h \in Hs |-> "-"]
-        /\ snap = [h \in Hs |-> NoSnap]
+        /\ snap = [h \in Hs |-> NoSnap] /\ trk = {}
 
 \* StreamWorkflowReplicationMessages: decode the four headers
 Decode(h) ==
   /\ pc[h] = "start"
   /\ IF id[h] = BadId THEN pc' = [pc EXCEPT ![h] = "done"] /\ outcome' = [outcome EXCEPT ![h] = "rejected"]
      ELSE pc' = [pc EXCEPT ![h] = "report"] /\ UNCHANGED outcome
-  /\ UNCHANGED <<lock, len, cnt, id, snap>>
+  /\ UNCHANGED <<lock, len, cnt, id, snap, trk>>
 
 \* a panic inside ReportStreamValue(+1): the deferred -1 is not registered yet; CapturePanic answers with an error.
 \* Pinned code: the lock stays with the panicking handler.  Repaired code: `defer Unlock` releases it.
@@ -86,9 +98,9 @@ Report(h) ==
   /\ pc[h] = "report"
   /\ IF Idx(h) < 0 THEN pc' = [pc EXCEPT ![h] = "serve"] /\ UNCHANGED <<lock, cnt>>
      ELSE IF ~LockedAdd /\ Idx(h) < len
-          THEN cnt' = [cnt EXCEPT ![Idx(h)] = @ + 1] /\ pc' = [pc EXCEPT ![h] = "serve"] /\ UNCHANGED lock
+          THEN cnt' = [cnt EXCEPT ![Idx(h)] = Up(@)] /\ pc' = [pc EXCEPT ![h] = "serve"] /\ UNCHANGED lock
           ELSE lock = 0 /\ lock' = h /\ pc' = [pc EXCEPT ![h] = "grow"] /\ UNCHANGED cnt
-  /\ UNCHANGED <<len, id, outcome, snap>>
+  /\ UNCHANGED <<len, id, outcome, snap, trk>>
 
 \* if idx >= len { newSize := ...; streamActive = slices.Grow(streamActive, newSize)[:newSize] }
 Grow(h) ==
@@ -99,29 +111,35 @@ Grow(h) ==
               ELSE \* slices.Grow allocates and copies the counters ...
                    snap' = [snap EXCEPT ![h] = cnt] /\ pc' = [pc EXCEPT ![h] = "publish"] /\ UNCHANGED <<len, outcome, lock>>
        ELSE pc' = [pc EXCEPT ![h] = "add"] /\ UNCHANGED <<len, outcome, lock, snap>>
-  /\ UNCHANGED <<cnt, id>>
+  /\ UNCHANGED <<cnt, id, trk>>
 \* ... and the assignment publishes the copy (may shrink on the pinned tree!)
 Publish(h) ==
   /\ pc[h] = "publish"
   /\ len' = NewSize(Idx(h)) /\ cnt' = snap[h] /\ snap' = [snap EXCEPT ![h] = NoSnap] /\ pc' = [pc EXCEPT ![h] = "add"]
-  /\ UNCHANGED <<lock, id, outcome>>
+  /\ UNCHANGED <<lock, id, outcome, trk>>
 
 \* streamActive[idx].Add(value); Unlock()
 Add(h) ==
   /\ pc[h] = "add"
   /\ IF Idx(h) < len
-       THEN /\ cnt' = [cnt EXCEPT ![Idx(h)] = @ + 1] /\ pc' = [pc EXCEPT ![h] = "serve"] /\ lock' = 0 /\ UNCHANGED outcome
+       THEN /\ cnt' = [cnt EXCEPT ![Idx(h)] = Up(@)] /\ pc' = [pc EXCEPT ![h] = "serve"] /\ lock' = 0 /\ UNCHANGED outcome
        ELSE Panicked(h) /\ UNCHANGED cnt                                          \* index out of range
-  /\ UNCHANGED <<len, id, snap>>
+  /\ UNCHANGED <<len, id, snap, trk>>
 
 \* handleStream runs and returns (forwarder / LCM / routing: no shared state of this model involved)
+\* the upstream stream is open: StreamForwarder.Run registers the stream with the tracker and relays until either side ends
 Serve(h) ==
   /\ pc[h] = "serve"
-  /\ \/ pc' = [pc EXCEPT ![h] = "unreport"] /\ outcome' = [outcome EXCEPT ![h] = "served"]
+  /\ \/ pc' = [pc EXCEPT ![h] = "serving"] /\ outcome' = [outcome EXCEPT ![h] = "served"] /\ trk' = trk \cup {Key(h)}
      \* this stream fails by a panic inside handleStream: CapturePanic answers it with an error; the deferred -1 runs
      \/ /\ ServeFails /\ outcome' = [outcome EXCEPT ![h] = "rejected-serve-panic"]
-        /\ pc' = [pc EXCEPT ![h] = IF DeferUnreport THEN "unreport" ELSE "done"]
+        /\ pc' = [pc EXCEPT ![h] = IF DeferUnreport THEN "unreport" ELSE "done"] /\ UNCHANGED trk
   /\ UNCHANGED <<lock, len, cnt, id, snap>>
+\* the stream ends: deferred UnregisterStream
+EndServe(h) ==
+  /\ pc[h] = "serving"
+  /\ pc' = [pc EXCEPT ![h] = "unreport"] /\ trk' = trk \ {Key(h)}
+  /\ UNCHANGED <<lock, len, cnt, id, snap, outcome>>
 
 \* deferred ReportStreamValue(idx, -1)
 Unreport(h) ==
@@ -129,13 +147,13 @@ Unreport(h) ==
   /\ IF Idx(h) < 0 THEN pc' = [pc EXCEPT ![h] = "done"] /\ UNCHANGED <<lock, cnt, outcome>>
      ELSE /\ (lock = 0 \/ (~LockedAdd /\ Idx(h) < len))
           /\ IF Idx(h) < len
-               THEN cnt' = [cnt EXCEPT ![Idx(h)] = @ - 1] /\ pc' = [pc EXCEPT ![h] = "done"] /\ UNCHANGED <<lock, outcome>>
+               THEN cnt' = [cnt EXCEPT ![Idx(h)] = Down(@)] /\ pc' = [pc EXCEPT ![h] = "done"] /\ UNCHANGED <<lock, outcome>>
                ELSE \* the slice was shrunk by another handler's wrapped size: index out of range in the deferred call
                     /\ pc' = [pc EXCEPT ![h] = "done"] /\ outcome' = [outcome EXCEPT ![h] = "served-then-panic"]
                     /\ lock' = (IF Fixed THEN 0 ELSE h) /\ UNCHANGED cnt
-  /\ UNCHANGED <<len, id, snap>>
+  /\ UNCHANGED <<len, id, snap, trk>>
 
-Next == \E h \in Hs : Decode(h) \/ Report(h) \/ Grow(h) \/ Publish(h) \/ Add(h) \/ Serve(h) \/ Unreport(h)
+Next == \E h \in Hs : Decode(h) \/ Report(h) \/ Grow(h) \/ Publish(h) \/ Add(h) \/ Serve(h) \/ EndServe(h) \/ Unreport(h)
 Spec == Init /\ [][Next]_vars /\ WF_vars(Next)
 
 AllDone == \A h \in Hs : pc[h] = "done"
@@ -153,6 +171,12 @@ LaterStreamsServed == \A h \in Hs : WellFormed(h) => <>(outcome[h] \in {"served"
 \* bookkeeping of one stream does not corrupt that of others: all counters return to zero, none goes negative
 CountersBalanced == AllDone => \A i \in 0..MaxInt : cnt[i] = 0
 CountersNonNeg == \A i \in 0..MaxInt : cnt[i] >= 0
+\* a stream that is being served is shown as active, whatever other streams - also on the same shard id - did meanwhile
+\* (repaired code: the slice never shrinks)
+ServedShown == \A h \in Hs : (pc[h] \in {"serve", "serving", "unreport"} /\ Idx(h) >= 0 /\ Idx(h) < len) => cnt[Idx(h)] >= 1
+\* the tracker has an entry for every stream being relayed, and it names that stream's server shard id
+TrackedWhileServing == \A h \in Hs : pc[h] = "serving" => (Key(h) \in trk /\ Key(h)[1] = Idx(h))
+TrackerEmptied == AllDone => trk = {}
 \* the repaired code never panics
 NoPanic == \A h \in Hs : outcome[h] # "rejected-panic" /\ outcome[h] # "served-then-panic"
 =============================================================================
